@@ -64,10 +64,10 @@ def parseVault (s : String) : Option Vault :=
   | _ => none
 def parseBorrow (s : String) : Option Borrow :=
   match s.splitOn ":" with
-  | [i, a, p, ai, ao, am, d, br, lq, lt, l1, l2] =>
+  | [i, a, p, ai, ao, am, d, ba, bas, t1, t2, lq, em, lt, elt, l1, l2] =>
     some { id := nat! i, app := nat! a, pool := nat! p, assetIn := nat! ai, assetOut := nat! ao, amountIn := int! am, debt := int! d,
-           bridge := if br = "1" then .first else if br = "2" then .second else .same, liquidated := bool! lq,
-           lt := int! lt, ltFirst := int! l1, ltSecond := int! l2 }
+           bridgedAmount := int! ba, bridgedAsset := nat! bas, firstTransit := nat! t1, secondTransit := nat! t2,
+           liquidated := bool! lq, emode := bool! em, lt := int! lt, elt := int! elt, ltFirst := int! l1, ltSecond := int! l2 }
   | _ => none
 def parsePair (s : String) : Option (Nat × Int) :=
   match s.splitOn ":" with
@@ -330,7 +330,8 @@ def handle (st : St) (seq : String) (f : List String) : St × List String :=
       (st, if m = r then [] else [s!"DIFF\t{seq}\tcr model={m} impl={res}"])
   | ["liq.br.single", ai, ao, am, d, res, _] =>
     let b : Borrow := { id := 0, app := 0, pool := 0, assetIn := nat! ai, assetOut := nat! ao, amountIn := int! am, debt := int! d,
-                        bridge := .same, liquidated := false, lt := 0, ltFirst := 0, ltSecond := 0 }
+                        bridgedAmount := 0, bridgedAsset := 0, firstTransit := 0, secondTransit := 0,
+                        liquidated := false, emode := false, lt := 0, elt := 0, ltFirst := 0, ltSecond := 0 }
     let m := showR (borrowRatio st.env b)
     let r := if res = "panic" then "err" else res
     (st, if m = r then [] else [s!"DIFF\t{seq}\tbr model={m} impl={res}"])
